@@ -783,3 +783,16 @@ pub fn alias_types(src: &str) -> Option<String> {
     let decls: String = aliases.iter().enumerate().map(|(k, t)| format!("alias TyAlias{k} = {t};\n")).collect();
     Some(format!("{decls}{out}"))
 }
+
+/// The same module without its entry points (a declarations-only file: shared bindings, helpers, types).
+pub fn without_entry_points(src: &str) -> Option<String> {
+    let d = split_decls(src)?;
+    let kept: Vec<String> = d.iter().filter(|x| {
+        let t = x.trim_start();
+        !(t.starts_with("@vertex") || t.starts_with("@fragment") || t.starts_with("@compute"))
+    }).cloned().collect();
+    if kept.len() == d.len() || kept.is_empty() {
+        return None;
+    }
+    Some(kept.concat())
+}
